@@ -97,6 +97,7 @@ def main(argv=None):
     R.log('[%s] L1: %d cases, %d mismatches' % (pid, len(results), len(mism)))
 
     # 4. oracle (model-free) -------------------------------------------------------------
+    prop.l1_results = results
     l2 = prop.oracle(tier, rng, [m[0] for m in mism])
     failures.extend(l2.get('failures', []))
     if mism:
@@ -173,6 +174,7 @@ class Prop:
     pid = ''
     tag = 'all parts'
     rule = ''
+    l1_results = None
     assumptions = []
 
     def cases(self, tier, rng):
@@ -197,6 +199,32 @@ class Prop:
         return False
 
     def replay(self, path):
+        """re-run the recorded input through the real macro (current /repo tree) and show it next to the record"""
+        import re
         with open(path) as f:
-            print(f.read())
+            rec = json.load(f)
+        print(json.dumps(rec, indent=1)[:6000])
+        text = rec.get('input') or ''
+        m = re.match(r'#\[derive_ex\((.*?)\)\] (.*)$', text, re.S)
+        lines = []
+        if m and not text.startswith('#[derive(Ex)]'):
+            # the attribute arguments may contain parentheses: split at the matching one
+            depth, i = 0, len('#[derive_ex(')
+            j = i
+            while j < len(text):
+                if text[j] in '([{':
+                    depth += 1
+                elif text[j] in ')]}':
+                    if depth == 0:
+                        break
+                    depth -= 1
+                j += 1
+            lines.append('0\tA\t%s\t%s' % (text[i:j], text[j + 3:]))
+        elif text.startswith('#[derive(Ex)] '):
+            lines.append('0\tD\t\t%s' % text[len('#[derive(Ex)] '):])
+        if lines:
+            out = R._run_sharded(R.EXPANDER, lines, 'replay')
+            print('--- real expansion on the current tree ---')
+            for l in out:
+                print(l[:3000])
         return 0
